@@ -163,6 +163,9 @@ def run(ctx):
         facts = dict((repr(c), t) for c, t in pe.path_facts(p))
         pr = fv(facts, present)
         fu = fv(facts, full)
+        if fu is None:
+            # `n_elements >= len`: the same test, since n_elements never exceeds len (it grows by one only on the not-full branch)
+            fu = fv(facts, mk("Le", full[2][0], full[2][1]))
         if pr is True:
             classes["present"].append(p)
         elif pr is False and fu is True:
